@@ -1523,6 +1523,7 @@ func loadCorpus08() c08Corpus {
 }
 
 func runC08(r *Run, rng *Rng, tier string) error {
+	rng = rng.Fork() // decorrelate consecutive seeds (NewRng streams of s and s+1 overlap)
 	nBuild, nFilter, nSearch := 260, 500, 500
 	if tier == "thorough" {
 		nBuild, nFilter, nSearch = 3000, 6000, 12000
